@@ -98,11 +98,11 @@ def assert_1(predicate, name="", error=ValueError):
     '''
     def _assert_1(source):
         def on_subscribe(observer, scheduler):
-            last = None
+            last = rs.state.markers.STATE_NOTSET
 
             def on_next(i):
                 nonlocal last
-                if last is not None:
+                if last is not rs.state.markers.STATE_NOTSET:
                     if predicate(last, i) is True:
                         observer.on_next(i)
                     else:
